@@ -15,7 +15,7 @@ func init() {
 		ID: "C02", Title: "KV storage: atomic operations, single CAS winner, fresh versions",
 		Pkgs:      kvsPkgs,
 		Run:       runC02,
-		Technique: "static analysis: must-lockset dataflow and critical-section continuity (in-memory), origin/dominance analysis of the version field, who-may-call census of the redis commands, guard dominance (go/ssa)",
+		Technique: "static analysis: must-lockset dataflow and critical-section continuity (in-memory), origin/dominance analysis of the version field, who-may-call census of the redis commands, guard dominance, ownership (copy-on-store / copy-on-read) census of the in-memory record table (go/ssa)",
 		Explanation: "R1 (in-memory): every access to the record and waiter tables is under the service mutex and every operation is exactly one critical section - it neither re-locks nor calls another locking method (WaitForVersionChange: per iteration, see C07). " +
 			"R2: in both backends every record stored/encoded by Create, Put, PutMany and CasByVersion got its Version from ulidutils.NewID() by a store that dominates the write with no other write to the field in between; NewID is the string form of ulid.Make() (process-wide locked monotonic source). " +
 			"R3 (redis): Create's only write command is SETNX and it succeeds only on SETNX's ok edge; CasByVersion reads through the Tx and writes in the MULTI/EXEC pipeline of a WATCH on the same key, guarded by version equality. " +
@@ -28,7 +28,7 @@ func init() {
 		ID: "C03", Title: "KV backends implement one and the same sequential contract",
 		Pkgs:      kvsPkgs,
 		Run:       runC03,
-		Technique: "static analysis: sibling agreement of the two kvs.Storage implementations on the error class returned on each deciding edge, field-coverage agreement of the record codec, constant agreement of the key prefix, command-order rule for batches (go/ssa)",
+		Technique: "static analysis: sibling agreement of the two kvs.Storage implementations on the error class returned on each deciding edge, field-coverage agreement of the record codec, constant agreement of the key prefix, command-order rule for batches, forward/backward dataflow of the storage key through the key mapping (injectivity), guard dominance on list lengths, ownership (copy-on-store / copy-on-read) census of the in-memory record table (go/ssa)",
 		Explanation: "R1: on the deciding edges both backends return the class the contract names: Create present->ErrExist; Get/Delete/CasByVersion missing->ErrNotExist; CasByVersion stored!=expected->ErrConflict (redis: the nil reply is mapped to ErrNotExist by the error mapping, which every read path goes through). " +
 			"R2: ErrExist is returned together with the version of the stored record. " +
 			"R3: the record<->proto codec reads and writes every field of kvs.Record. R4: the key prefix added by the mapping has the length its inverse strips; ListKeys maps the pattern and un-maps results. " +
